@@ -794,17 +794,33 @@ class Lin:
             return T("opt", present=None, inner=T(first))
         if path == "core::iter::traits::iterator::Iterator::count":
             return tC
+        if path in ("core::bool::<impl bool>::then", "core::bool::<impl bool>::then_some") and len(args) == 2:
+            if sc[0] not in (C, Z):
+                self.control_on_adjoint.append("`then` on a condition that depends on the adjoint")
+                return tN
+            const = rd[0].const if rd[0] is not None else None
+            if const is False:
+                return T("opt", present=False)
+            inner = args[1] if path.endswith("then_some") else self.apply(args[1], [])
+            return T("opt", present=const, inner=inner)
         if path == "alloc::vec::from_elem":
             if sc[1] not in (C, Z):
                 return tN
             return T(first)
-        if path in ("alloc::vec::Vec::<T>::new", "alloc::vec::Vec::<T>::with_capacity", "core::default::Default::default"):
+        if path in ("alloc::vec::Vec::<T>::new", "alloc::vec::Vec::<T>::with_capacity"):
+            return T("vec", items=[])       # a growable vector: top-level pushes keep their positions
+        if path == "core::default::Default::default":
             return tZ
         if path in ("alloc::vec::Vec::<T, A>::push", "alloc::vec::Vec::<T, A>::extend_from_slice", "core::iter::traits::collect::Extend::extend",
                     "alloc::vec::Vec::<T, A>::insert"):
             if args[0] is not None and args[0].k == "ref":
-                o = scalar(args[0].cell.t)
-                args[0].cell.t = T(join_branch(o, sc[-1]))
+                cur = args[0].cell.t
+                in_loop = any(f["loops"] for f in self.frames)
+                if path.endswith("::push") and cur is not None and cur.k == "vec" and not in_loop and not getattr(self, "_second_pass", False):
+                    cur.items.append(args[1])
+                else:
+                    o = scalar(cur)
+                    args[0].cell.t = T(join_branch(o, sc[-1]))
             return tC
         if path in ("core::slice::<impl [T]>::clone_from_slice", "core::slice::<impl [T]>::copy_from_slice", "core::slice::<impl [T]>::fill"):
             if args[0] is not None and args[0].k == "ref":
@@ -835,6 +851,12 @@ class Lin:
                 if o.present is not False:
                     outs.append(self.apply(args[2], [o.inner if o.inner is not None else tN]))
                 return self.join_values(outs)
+            if tail in ("is_some_and", "is_none_or") and o is not None and o.k == "opt":
+                if o.present is False:
+                    return T(C, const=(tail == "is_none_or"))
+                r = self.read(self.apply(args[1], [o.inner if o.inner is not None else tN]))
+                cls = scalar(r)
+                return T(C if cls in (C, Z) else N, const=(r.const if o.present is True and r is not None else None))
             if tail in ("is_some", "is_none") and o is not None and o.k == "opt":
                 const = None if o.present is None else (o.present == (tail == "is_some"))
                 return T(C, const=const)
@@ -857,6 +879,9 @@ class Lin:
         if path == "core::ops::range::RangeInclusive::<Idx>::new":
             return T(C if all(s in (C, Z) for s in sc) else N)
         # --- unknown callee
+        if any(a is not None and a.k in ("clo", "fn") for a in rd):
+            self.note("no summary for callee %s which receives a closure" % path)
+            return tN
         if all(s in (C, Z) for s in sc):
             return tC
         self.note("no summary for callee %s with a non-C argument" % path)
